@@ -4,6 +4,8 @@
 //! requests:  `eq.<via> <ty> <a> <b>`, `cmp.<via> <ty> <a> <b>`, `assertc.eq|ne <ty> <a> <b>`,
 //!            `cmp.laws <ty> <a> <b> <c>` (orderings of ab, bc, ac, ba + verdict of the order laws)
 //! `<via>`:   fn, macro, for, forkey, forcl, forpath, opt, optmacro, optfor (see lean/Driver/C16.lean)
+//! The macros as expressions of a program (argument expressions with side effects, non-tail positions, foreign
+//! return types, const items) are exercised by the generated programs of vlib/progs/c16.py.
 use crate::util::*;
 use konst::{assertc_eq, assertc_ne, const_cmp, const_cmp_for, const_eq, const_eq_for};
 use std::cmp::Ordering;
@@ -27,6 +29,19 @@ fn o(x: Ordering) -> String {
 }
 fn bs(x: bool) -> String {
     b(x).to_string()
+}
+/// `om!(<macro call>)` / `bm!(<macro call>)`: the konst macro is the TAIL expression of a closure whose return
+/// type is the macro's own value type (`Ordering` / `bool`), and its value is rendered. This module observes the
+/// VALUE of the macros on variables for very many inputs. How the macros behave as expressions of a larger
+/// program — in non-tail positions, under an enclosing return type that differs from their value, with argument
+/// expressions that have side effects — is observed by the generated programs of vlib/progs/c16.py, whose units
+/// are compiled one by one: a macro that no longer type-checks in some position is then reported for that
+/// position with an input, instead of taking the harness of every property down with it.
+macro_rules! om {
+    ($($t:tt)*) => { o((|| -> Ordering { $($t)* })()) };
+}
+macro_rules! bm {
+    ($($t:tt)*) => { bs((|| -> bool { $($t)* })()) };
 }
 fn okp(x: bool) -> String {
     if x { "ok" } else { "panic" }.to_string()
@@ -242,8 +257,8 @@ macro_rules! scalar_family {
         // --- the scalar itself
         let ops: Vec<Op<$T>> = vec![
             ("cmp.fn", bx(|a: &$T, b: &$T| o($cmp(*a, *b))), bx(|a: &$T, b: &$T| o(a.cmp(b)))),
-            ("cmp.macro", bx(|a: &$T, b: &$T| o(const_cmp!(*a, *b))), bx(|a: &$T, b: &$T| o(a.cmp(b)))),
-            ("eq.macro", bx(|a: &$T, b: &$T| bs(const_eq!(*a, *b))), bx(|a: &$T, b: &$T| bs(a == b))),
+            ("cmp.macro", bx(|a: &$T, b: &$T| om!(const_cmp!(*a, *b))), bx(|a: &$T, b: &$T| o(a.cmp(b)))),
+            ("eq.macro", bx(|a: &$T, b: &$T| bm!(const_eq!(*a, *b))), bx(|a: &$T, b: &$T| bs(a == b))),
             ("assertc.eq", bx(|a: &$T, b: &$T| { assertc_eq!(*a, *b); "ok".to_string() }), bx(|a: &$T, b: &$T| okp(a == b))),
             ("assertc.ne", bx(|a: &$T, b: &$T| { assertc_ne!(*a, *b); "ok".to_string() }), bx(|a: &$T, b: &$T| okp(a != b))),
         ];
@@ -253,10 +268,10 @@ macro_rules! scalar_family {
         let oops: Vec<Op<Option<$T>>> = vec![
             ("eq.opt", bx(|a: &Option<$T>, b: &Option<$T>| bs($eqo(*a, *b))), bx(|a: &Option<$T>, b: &Option<$T>| bs(a == b))),
             ("cmp.opt", bx(|a: &Option<$T>, b: &Option<$T>| o($cmpo(*a, *b))), bx(|a: &Option<$T>, b: &Option<$T>| o(a.cmp(b)))),
-            ("eq.optmacro", bx(|a: &Option<$T>, b: &Option<$T>| bs(const_eq!(*a, *b))), bx(|a: &Option<$T>, b: &Option<$T>| bs(a == b))),
-            ("cmp.optmacro", bx(|a: &Option<$T>, b: &Option<$T>| o(const_cmp!(*a, *b))), bx(|a: &Option<$T>, b: &Option<$T>| o(a.cmp(b)))),
-            ("eq.optfor", bx(|a: &Option<$T>, b: &Option<$T>| bs(const_eq_for!(option; *a, *b))), bx(|a: &Option<$T>, b: &Option<$T>| bs(a == b))),
-            ("cmp.optfor", bx(|a: &Option<$T>, b: &Option<$T>| o(const_cmp_for!(option; *a, *b))), bx(|a: &Option<$T>, b: &Option<$T>| o(a.cmp(b)))),
+            ("eq.optmacro", bx(|a: &Option<$T>, b: &Option<$T>| bm!(const_eq!(*a, *b))), bx(|a: &Option<$T>, b: &Option<$T>| bs(a == b))),
+            ("cmp.optmacro", bx(|a: &Option<$T>, b: &Option<$T>| om!(const_cmp!(*a, *b))), bx(|a: &Option<$T>, b: &Option<$T>| o(a.cmp(b)))),
+            ("eq.optfor", bx(|a: &Option<$T>, b: &Option<$T>| bm!(const_eq_for!(option; *a, *b))), bx(|a: &Option<$T>, b: &Option<$T>| bs(a == b))),
+            ("cmp.optfor", bx(|a: &Option<$T>, b: &Option<$T>| om!(const_cmp_for!(option; *a, *b))), bx(|a: &Option<$T>, b: &Option<$T>| o(a.cmp(b)))),
         ];
         pairs(out, $name, &with_none(&vals), &oshow, &oops, &|_, _| true);
         // --- order laws on all triples (implementation side)
@@ -269,28 +284,28 @@ macro_rules! scalar_family {
         let sops: Vec<Op<Vec<$T>>> = vec![
             ("eq.fn", bx(|a: &Vec<$T>, b: &Vec<$T>| bs($eqs(a, b))), bx(|a: &Vec<$T>, b: &Vec<$T>| bs(a[..] == b[..]))),
             ("cmp.fn", bx(|a: &Vec<$T>, b: &Vec<$T>| o($cmps(a, b))), bx(|a: &Vec<$T>, b: &Vec<$T>| o(a[..].cmp(&b[..])))),
-            ("eq.macro", bx(|a: &Vec<$T>, b: &Vec<$T>| bs(const_eq!(&a[..], &b[..]))), bx(|a: &Vec<$T>, b: &Vec<$T>| bs(a[..] == b[..]))),
-            ("cmp.macro", bx(|a: &Vec<$T>, b: &Vec<$T>| o(const_cmp!(&a[..], &b[..]))), bx(|a: &Vec<$T>, b: &Vec<$T>| o(a[..].cmp(&b[..])))),
-            ("eq.for", bx(|a: &Vec<$T>, b: &Vec<$T>| bs(const_eq_for!(slice; &a[..], &b[..]))), bx(|a: &Vec<$T>, b: &Vec<$T>| bs(a[..] == b[..]))),
-            ("cmp.for", bx(|a: &Vec<$T>, b: &Vec<$T>| o(const_cmp_for!(slice; &a[..], &b[..]))), bx(|a: &Vec<$T>, b: &Vec<$T>| o(a[..].cmp(&b[..])))),
+            ("eq.macro", bx(|a: &Vec<$T>, b: &Vec<$T>| bm!(const_eq!(&a[..], &b[..]))), bx(|a: &Vec<$T>, b: &Vec<$T>| bs(a[..] == b[..]))),
+            ("cmp.macro", bx(|a: &Vec<$T>, b: &Vec<$T>| om!(const_cmp!(&a[..], &b[..]))), bx(|a: &Vec<$T>, b: &Vec<$T>| o(a[..].cmp(&b[..])))),
+            ("eq.for", bx(|a: &Vec<$T>, b: &Vec<$T>| bm!(const_eq_for!(slice; &a[..], &b[..]))), bx(|a: &Vec<$T>, b: &Vec<$T>| bs(a[..] == b[..]))),
+            ("cmp.for", bx(|a: &Vec<$T>, b: &Vec<$T>| om!(const_cmp_for!(slice; &a[..], &b[..]))), bx(|a: &Vec<$T>, b: &Vec<$T>| o(a[..].cmp(&b[..])))),
         ];
         // the other comparator forms of the `*_for!` macros
         let sops2: Vec<Op<Vec<$T>>> = vec![
-            ("eq.forkey", bx(|a: &Vec<$T>, b: &Vec<$T>| bs(const_eq_for!(slice; &a[..], &b[..], |x| *x))), bx(|a: &Vec<$T>, b: &Vec<$T>| bs(a[..] == b[..]))),
-            ("cmp.forkey", bx(|a: &Vec<$T>, b: &Vec<$T>| o(const_cmp_for!(slice; &a[..], &b[..], |x| *x))), bx(|a: &Vec<$T>, b: &Vec<$T>| o(a[..].cmp(&b[..])))),
-            ("eq.forcl", bx(|a: &Vec<$T>, b: &Vec<$T>| bs(const_eq_for!(slice; &a[..], &b[..], |l, r| *l == *r))), bx(|a: &Vec<$T>, b: &Vec<$T>| bs(a[..] == b[..]))),
-            ("cmp.forcl", bx(|a: &Vec<$T>, b: &Vec<$T>| o(const_cmp_for!(slice; &a[..], &b[..], |l, r| $cmp(*l, *r)))), bx(|a: &Vec<$T>, b: &Vec<$T>| o(a[..].cmp(&b[..])))),
-            ("eq.forpath", bx(|a: &Vec<$T>, b: &Vec<$T>| { fn e(l: &$T, r: &$T) -> bool { *l == *r } bs(const_eq_for!(slice; &a[..], &b[..], e)) }), bx(|a: &Vec<$T>, b: &Vec<$T>| bs(a[..] == b[..]))),
-            ("cmp.forpath", bx(|a: &Vec<$T>, b: &Vec<$T>| { fn c(l: &$T, r: &$T) -> Ordering { $cmp(*l, *r) } o(const_cmp_for!(slice; &a[..], &b[..], c)) }), bx(|a: &Vec<$T>, b: &Vec<$T>| o(a[..].cmp(&b[..])))),
+            ("eq.forkey", bx(|a: &Vec<$T>, b: &Vec<$T>| bm!(const_eq_for!(slice; &a[..], &b[..], |x| *x))), bx(|a: &Vec<$T>, b: &Vec<$T>| bs(a[..] == b[..]))),
+            ("cmp.forkey", bx(|a: &Vec<$T>, b: &Vec<$T>| om!(const_cmp_for!(slice; &a[..], &b[..], |x| *x))), bx(|a: &Vec<$T>, b: &Vec<$T>| o(a[..].cmp(&b[..])))),
+            ("eq.forcl", bx(|a: &Vec<$T>, b: &Vec<$T>| bm!(const_eq_for!(slice; &a[..], &b[..], |l, r| *l == *r))), bx(|a: &Vec<$T>, b: &Vec<$T>| bs(a[..] == b[..]))),
+            ("cmp.forcl", bx(|a: &Vec<$T>, b: &Vec<$T>| om!(const_cmp_for!(slice; &a[..], &b[..], |l, r| $cmp(*l, *r)))), bx(|a: &Vec<$T>, b: &Vec<$T>| o(a[..].cmp(&b[..])))),
+            ("eq.forpath", bx(|a: &Vec<$T>, b: &Vec<$T>| { fn e(l: &$T, r: &$T) -> bool { *l == *r } bm!(const_eq_for!(slice; &a[..], &b[..], e)) }), bx(|a: &Vec<$T>, b: &Vec<$T>| bs(a[..] == b[..]))),
+            ("cmp.forpath", bx(|a: &Vec<$T>, b: &Vec<$T>| { fn c(l: &$T, r: &$T) -> Ordering { $cmp(*l, *r) } om!(const_cmp_for!(slice; &a[..], &b[..], c)) }), bx(|a: &Vec<$T>, b: &Vec<$T>| o(a[..].cmp(&b[..])))),
         ];
         let osshow = move |v: &Option<Vec<$T>>| opt(v, &sshow);
         let osops: Vec<Op<Option<Vec<$T>>>> = vec![
             ("eq.opt", bx(|a: &Option<Vec<$T>>, b: &Option<Vec<$T>>| bs($eqos(a.as_deref(), b.as_deref()))), bx(|a: &Option<Vec<$T>>, b: &Option<Vec<$T>>| bs(a.as_deref() == b.as_deref()))),
             ("cmp.opt", bx(|a: &Option<Vec<$T>>, b: &Option<Vec<$T>>| o($cmpos(a.as_deref(), b.as_deref()))), bx(|a: &Option<Vec<$T>>, b: &Option<Vec<$T>>| o(a.as_deref().cmp(&b.as_deref())))),
-            ("eq.optmacro", bx(|a: &Option<Vec<$T>>, b: &Option<Vec<$T>>| bs(const_eq!(a.as_deref(), b.as_deref()))), bx(|a: &Option<Vec<$T>>, b: &Option<Vec<$T>>| bs(a.as_deref() == b.as_deref()))),
-            ("cmp.optmacro", bx(|a: &Option<Vec<$T>>, b: &Option<Vec<$T>>| o(const_cmp!(a.as_deref(), b.as_deref()))), bx(|a: &Option<Vec<$T>>, b: &Option<Vec<$T>>| o(a.as_deref().cmp(&b.as_deref())))),
-            ("eq.optfor", bx(|a: &Option<Vec<$T>>, b: &Option<Vec<$T>>| bs(const_eq_for!(option; a.as_deref(), b.as_deref()))), bx(|a: &Option<Vec<$T>>, b: &Option<Vec<$T>>| bs(a.as_deref() == b.as_deref()))),
-            ("cmp.optfor", bx(|a: &Option<Vec<$T>>, b: &Option<Vec<$T>>| o(const_cmp_for!(option; a.as_deref(), b.as_deref()))), bx(|a: &Option<Vec<$T>>, b: &Option<Vec<$T>>| o(a.as_deref().cmp(&b.as_deref())))),
+            ("eq.optmacro", bx(|a: &Option<Vec<$T>>, b: &Option<Vec<$T>>| bm!(const_eq!(a.as_deref(), b.as_deref()))), bx(|a: &Option<Vec<$T>>, b: &Option<Vec<$T>>| bs(a.as_deref() == b.as_deref()))),
+            ("cmp.optmacro", bx(|a: &Option<Vec<$T>>, b: &Option<Vec<$T>>| om!(const_cmp!(a.as_deref(), b.as_deref()))), bx(|a: &Option<Vec<$T>>, b: &Option<Vec<$T>>| o(a.as_deref().cmp(&b.as_deref())))),
+            ("eq.optfor", bx(|a: &Option<Vec<$T>>, b: &Option<Vec<$T>>| bm!(const_eq_for!(option; a.as_deref(), b.as_deref()))), bx(|a: &Option<Vec<$T>>, b: &Option<Vec<$T>>| bs(a.as_deref() == b.as_deref()))),
+            ("cmp.optfor", bx(|a: &Option<Vec<$T>>, b: &Option<Vec<$T>>| om!(const_cmp_for!(option; a.as_deref(), b.as_deref()))), bx(|a: &Option<Vec<$T>>, b: &Option<Vec<$T>>| o(a.as_deref().cmp(&b.as_deref())))),
         ];
         let alphas: Vec<Vec<$T>> = $alphas;
         let max = if alphas[0].len() == 2 { if $tier == "thorough" { 6 } else { 4 } } else if $tier == "thorough" { 4 } else { 3 };
@@ -375,21 +390,21 @@ fn user_type_family(out: &mut Out, tier: &str) {
     let vals: Vec<W> = uint_vals!(u8).into_iter().map(W).collect();
     let show = |v: &W| v.0.to_string();
     let ops: Vec<Op<W>> = vec![
-        ("eq.impl", bx(|a: &W, b: &W| bs(const_eq!(*a, *b))), bx(|a: &W, b: &W| bs(a == b))),
-        ("cmp.impl", bx(|a: &W, b: &W| o(const_cmp!(*a, *b))), bx(|a: &W, b: &W| o(a.cmp(b)))),
+        ("eq.impl", bx(|a: &W, b: &W| bm!(const_eq!(*a, *b))), bx(|a: &W, b: &W| bs(a == b))),
+        ("cmp.impl", bx(|a: &W, b: &W| om!(const_cmp!(*a, *b))), bx(|a: &W, b: &W| o(a.cmp(b)))),
     ];
     pairs(out, "u8", &vals, &show, &ops, &|_, _| true);
     type V = Vec<W>;
     let sshow = |v: &V| list(v.iter().map(|x| x.0.to_string()));
     let sops: Vec<Op<V>> = vec![
-        ("eq.forimpl", bx(|a: &V, b: &V| bs(const_eq_for!(slice; &a[..], &b[..]))), bx(|a: &V, b: &V| bs(a == b))),
-        ("cmp.forimpl", bx(|a: &V, b: &V| o(const_cmp_for!(slice; &a[..], &b[..]))), bx(|a: &V, b: &V| o(a[..].cmp(&b[..])))),
+        ("eq.forimpl", bx(|a: &V, b: &V| bm!(const_eq_for!(slice; &a[..], &b[..]))), bx(|a: &V, b: &V| bs(a == b))),
+        ("cmp.forimpl", bx(|a: &V, b: &V| om!(const_cmp_for!(slice; &a[..], &b[..]))), bx(|a: &V, b: &V| o(a[..].cmp(&b[..])))),
     ];
     pairs(out, "slice_u8", &words(&[W(0), W(1), W(2)], if tier == "thorough" { 3 } else { 2 }), &sshow, &sops, &|_, _| true);
     let oshow = move |v: &Option<W>| opt(v, &show);
     let oops: Vec<Op<Option<W>>> = vec![
-        ("eq.optforimpl", bx(|a: &Option<W>, b: &Option<W>| bs(const_eq_for!(option; *a, *b))), bx(|a: &Option<W>, b: &Option<W>| bs(a == b))),
-        ("cmp.optforimpl", bx(|a: &Option<W>, b: &Option<W>| o(const_cmp_for!(option; *a, *b))), bx(|a: &Option<W>, b: &Option<W>| o(a.cmp(b)))),
+        ("eq.optforimpl", bx(|a: &Option<W>, b: &Option<W>| bm!(const_eq_for!(option; *a, *b))), bx(|a: &Option<W>, b: &Option<W>| bs(a == b))),
+        ("cmp.optforimpl", bx(|a: &Option<W>, b: &Option<W>| om!(const_cmp_for!(option; *a, *b))), bx(|a: &Option<W>, b: &Option<W>| o(a.cmp(b)))),
     ];
     pairs(out, "u8", &with_none(&vals), &oshow, &oops, &|_, _| true);
 }
@@ -419,8 +434,8 @@ fn array_family(out: &mut Out) {
     type V = Vec<u8>;
     let show = |v: &V| list(v.iter().map(|x| x.to_string()));
     let ops: Vec<Op<V>> = vec![
-        ("eq.macroarr", bx(|a: &V, b: &V| bs(arr_call!(const_eq, a, b; 0 1 2 3))), bx(|a: &V, b: &V| bs(a == b))),
-        ("cmp.macroarr", bx(|a: &V, b: &V| o(arr_call!(const_cmp, a, b; 0 1 2 3))), bx(|a: &V, b: &V| o(a[..].cmp(&b[..])))),
+        ("eq.macroarr", bx(|a: &V, b: &V| bm!(arr_call!(const_eq, a, b; 0 1 2 3))), bx(|a: &V, b: &V| bs(a == b))),
+        ("cmp.macroarr", bx(|a: &V, b: &V| om!(arr_call!(const_cmp, a, b; 0 1 2 3))), bx(|a: &V, b: &V| o(a[..].cmp(&b[..])))),
     ];
     pairs(out, "slice_u8", &words(&[0u8, 1, 2], 3), &show, &ops, &|_, _| true);
 }
@@ -438,18 +453,18 @@ macro_rules! nonzero_family {
         let ops: Vec<Op<$NZ>> = vec![
             ("eq.fn", bx(|a: &$NZ, b: &$NZ| bs($eq(*a, *b))), bx(|a: &$NZ, b: &$NZ| bs(a == b))),
             ("cmp.fn", bx(|a: &$NZ, b: &$NZ| o($cmp(*a, *b))), bx(|a: &$NZ, b: &$NZ| o(a.cmp(b)))),
-            ("eq.macro", bx(|a: &$NZ, b: &$NZ| bs(const_eq!(*a, *b))), bx(|a: &$NZ, b: &$NZ| bs(a == b))),
-            ("cmp.macro", bx(|a: &$NZ, b: &$NZ| o(const_cmp!(*a, *b))), bx(|a: &$NZ, b: &$NZ| o(a.cmp(b)))),
+            ("eq.macro", bx(|a: &$NZ, b: &$NZ| bm!(const_eq!(*a, *b))), bx(|a: &$NZ, b: &$NZ| bs(a == b))),
+            ("cmp.macro", bx(|a: &$NZ, b: &$NZ| om!(const_cmp!(*a, *b))), bx(|a: &$NZ, b: &$NZ| o(a.cmp(b)))),
         ];
         pairs(out, $name, &vals, &show, &ops, &|_, _| true);
         let oshow = move |v: &Option<$NZ>| opt(v, &show);
         let oops: Vec<Op<Option<$NZ>>> = vec![
             ("eq.opt", bx(|a: &Option<$NZ>, b: &Option<$NZ>| bs($eqo(*a, *b))), bx(|a: &Option<$NZ>, b: &Option<$NZ>| bs(a == b))),
             ("cmp.opt", bx(|a: &Option<$NZ>, b: &Option<$NZ>| o($cmpo(*a, *b))), bx(|a: &Option<$NZ>, b: &Option<$NZ>| o(a.cmp(b)))),
-            ("eq.optmacro", bx(|a: &Option<$NZ>, b: &Option<$NZ>| bs(const_eq!(*a, *b))), bx(|a: &Option<$NZ>, b: &Option<$NZ>| bs(a == b))),
-            ("cmp.optmacro", bx(|a: &Option<$NZ>, b: &Option<$NZ>| o(const_cmp!(*a, *b))), bx(|a: &Option<$NZ>, b: &Option<$NZ>| o(a.cmp(b)))),
-            ("eq.optfor", bx(|a: &Option<$NZ>, b: &Option<$NZ>| bs(const_eq_for!(option; *a, *b))), bx(|a: &Option<$NZ>, b: &Option<$NZ>| bs(a == b))),
-            ("cmp.optfor", bx(|a: &Option<$NZ>, b: &Option<$NZ>| o(const_cmp_for!(option; *a, *b))), bx(|a: &Option<$NZ>, b: &Option<$NZ>| o(a.cmp(b)))),
+            ("eq.optmacro", bx(|a: &Option<$NZ>, b: &Option<$NZ>| bm!(const_eq!(*a, *b))), bx(|a: &Option<$NZ>, b: &Option<$NZ>| bs(a == b))),
+            ("cmp.optmacro", bx(|a: &Option<$NZ>, b: &Option<$NZ>| om!(const_cmp!(*a, *b))), bx(|a: &Option<$NZ>, b: &Option<$NZ>| o(a.cmp(b)))),
+            ("eq.optfor", bx(|a: &Option<$NZ>, b: &Option<$NZ>| bm!(const_eq_for!(option; *a, *b))), bx(|a: &Option<$NZ>, b: &Option<$NZ>| bs(a == b))),
+            ("cmp.optfor", bx(|a: &Option<$NZ>, b: &Option<$NZ>| om!(const_cmp_for!(option; *a, *b))), bx(|a: &Option<$NZ>, b: &Option<$NZ>| o(a.cmp(b)))),
         ];
         pairs(out, $name, &with_none(&vals), &oshow, &oops, &|_, _| true);
     }};
@@ -483,8 +498,8 @@ macro_rules! range_family {
         let rshow = move |r: &Range<$T>| format!("{}|{}", show1(r.start), show1(r.end));
         let rops: Vec<Op<Range<$T>>> = vec![
             ("eq.fn", bx(|a: &Range<$T>, b: &Range<$T>| bs($eqr(a, b))), bx(|a: &Range<$T>, b: &Range<$T>| bs(a == b))),
-            ("eq.macro", bx(|a: &Range<$T>, b: &Range<$T>| bs(const_eq!(*a, *b))), bx(|a: &Range<$T>, b: &Range<$T>| bs(a == b))),
-            ("eq.for", bx(|a: &Range<$T>, b: &Range<$T>| bs(const_eq_for!(range; *a, *b))), bx(|a: &Range<$T>, b: &Range<$T>| bs(a == b))),
+            ("eq.macro", bx(|a: &Range<$T>, b: &Range<$T>| bm!(const_eq!(*a, *b))), bx(|a: &Range<$T>, b: &Range<$T>| bs(a == b))),
+            ("eq.for", bx(|a: &Range<$T>, b: &Range<$T>| bm!(const_eq_for!(range; *a, *b))), bx(|a: &Range<$T>, b: &Range<$T>| bs(a == b))),
         ];
         pairs(out, concat!("range_", $name), &rs, &rshow, &rops, &|_, _| true);
         // `x..=x` is not empty; an exhausted one is (that is how the flag is observed here)
@@ -493,8 +508,8 @@ macro_rules! range_family {
         };
         let riops: Vec<Op<RangeInclusive<$T>>> = vec![
             ("eq.fn", bx(|a: &RangeInclusive<$T>, b: &RangeInclusive<$T>| bs($eqri(a, b))), bx(|a: &RangeInclusive<$T>, b: &RangeInclusive<$T>| bs(a == b))),
-            ("eq.macro", bx(|a: &RangeInclusive<$T>, b: &RangeInclusive<$T>| bs(const_eq!(*a, *b))), bx(|a: &RangeInclusive<$T>, b: &RangeInclusive<$T>| bs(a == b))),
-            ("eq.for", bx(|a: &RangeInclusive<$T>, b: &RangeInclusive<$T>| bs(const_eq_for!(range_inclusive; *a, *b))), bx(|a: &RangeInclusive<$T>, b: &RangeInclusive<$T>| bs(a == b))),
+            ("eq.macro", bx(|a: &RangeInclusive<$T>, b: &RangeInclusive<$T>| bm!(const_eq!(*a, *b))), bx(|a: &RangeInclusive<$T>, b: &RangeInclusive<$T>| bs(a == b))),
+            ("eq.for", bx(|a: &RangeInclusive<$T>, b: &RangeInclusive<$T>| bm!(const_eq_for!(range_inclusive; *a, *b))), bx(|a: &RangeInclusive<$T>, b: &RangeInclusive<$T>| bs(a == b))),
         ];
         pairs(out, concat!("rangeinc_", $name), &ris, &rishow, &riops, &|_, _| true);
     }};
@@ -516,8 +531,8 @@ fn str_family(out: &mut Out, tier: &str, rng: &mut Rng) {
     let ops: Vec<Op<String>> = vec![
         ("eq.fn", bx(|a: &String, b: &String| bs(eq_str(a, b))), bx(|a: &String, b: &String| bs(a == b))),
         ("cmp.fn", bx(|a: &String, b: &String| o(cmp_str(a, b))), bx(|a: &String, b: &String| o(a.as_str().cmp(b.as_str())))),
-        ("eq.macro", bx(|a: &String, b: &String| bs(const_eq!(a.as_str(), b.as_str()))), bx(|a: &String, b: &String| bs(a == b))),
-        ("cmp.macro", bx(|a: &String, b: &String| o(const_cmp!(a.as_str(), b.as_str()))), bx(|a: &String, b: &String| o(a.as_str().cmp(b.as_str())))),
+        ("eq.macro", bx(|a: &String, b: &String| bm!(const_eq!(a.as_str(), b.as_str()))), bx(|a: &String, b: &String| bs(a == b))),
+        ("cmp.macro", bx(|a: &String, b: &String| om!(const_cmp!(a.as_str(), b.as_str()))), bx(|a: &String, b: &String| o(a.as_str().cmp(b.as_str())))),
         ("assertc.eq", bx(|a: &String, b: &String| { assertc_eq!(a.as_str(), b.as_str()); "ok".to_string() }), bx(|a: &String, b: &String| okp(a == b))),
         ("assertc.ne", bx(|a: &String, b: &String| { assertc_ne!(a.as_str(), b.as_str()); "ok".to_string() }), bx(|a: &String, b: &String| okp(a != b))),
     ];
@@ -526,10 +541,10 @@ fn str_family(out: &mut Out, tier: &str, rng: &mut Rng) {
     let oops: Vec<Op<Option<String>>> = vec![
         ("eq.opt", bx(|a: &Option<String>, b: &Option<String>| bs(eq_option_str(a.as_deref(), b.as_deref()))), bx(|a: &Option<String>, b: &Option<String>| bs(a == b))),
         ("cmp.opt", bx(|a: &Option<String>, b: &Option<String>| o(cmp_option_str(a.as_deref(), b.as_deref()))), bx(|a: &Option<String>, b: &Option<String>| o(a.as_deref().cmp(&b.as_deref())))),
-        ("eq.optmacro", bx(|a: &Option<String>, b: &Option<String>| bs(const_eq!(a.as_deref(), b.as_deref()))), bx(|a: &Option<String>, b: &Option<String>| bs(a == b))),
-        ("cmp.optmacro", bx(|a: &Option<String>, b: &Option<String>| o(const_cmp!(a.as_deref(), b.as_deref()))), bx(|a: &Option<String>, b: &Option<String>| o(a.as_deref().cmp(&b.as_deref())))),
-        ("eq.optfor", bx(|a: &Option<String>, b: &Option<String>| bs(const_eq_for!(option; a.as_deref(), b.as_deref()))), bx(|a: &Option<String>, b: &Option<String>| bs(a == b))),
-        ("cmp.optfor", bx(|a: &Option<String>, b: &Option<String>| o(const_cmp_for!(option; a.as_deref(), b.as_deref()))), bx(|a: &Option<String>, b: &Option<String>| o(a.as_deref().cmp(&b.as_deref())))),
+        ("eq.optmacro", bx(|a: &Option<String>, b: &Option<String>| bm!(const_eq!(a.as_deref(), b.as_deref()))), bx(|a: &Option<String>, b: &Option<String>| bs(a == b))),
+        ("cmp.optmacro", bx(|a: &Option<String>, b: &Option<String>| om!(const_cmp!(a.as_deref(), b.as_deref()))), bx(|a: &Option<String>, b: &Option<String>| o(a.as_deref().cmp(&b.as_deref())))),
+        ("eq.optfor", bx(|a: &Option<String>, b: &Option<String>| bm!(const_eq_for!(option; a.as_deref(), b.as_deref()))), bx(|a: &Option<String>, b: &Option<String>| bs(a == b))),
+        ("cmp.optfor", bx(|a: &Option<String>, b: &Option<String>| om!(const_cmp_for!(option; a.as_deref(), b.as_deref()))), bx(|a: &Option<String>, b: &Option<String>| o(a.as_deref().cmp(&b.as_deref())))),
     ];
     let small: Vec<String> = all_words(&letters[..3], 2).into_iter().map(|w| String::from_utf8(w).unwrap()).collect();
     pairs(out, "str", &with_none(&small), &oshow, &oops, &|_, _| true);
@@ -569,20 +584,20 @@ fn slice_str_family(out: &mut Out, tier: &str, rng: &mut Rng) {
     let ops: Vec<Op<V>> = vec![
         ("eq.fn", bx(|a: &V, b: &V| bs(eq_slice_str(a, b))), bx(|a: &V, b: &V| bs(a == b))),
         ("cmp.fn", bx(|a: &V, b: &V| o(cmp_slice_str(a, b))), bx(|a: &V, b: &V| o(a[..].cmp(&b[..])))),
-        ("eq.macro", bx(|a: &V, b: &V| bs(const_eq!(&a[..], &b[..]))), bx(|a: &V, b: &V| bs(a == b))),
-        ("cmp.macro", bx(|a: &V, b: &V| o(const_cmp!(&a[..], &b[..]))), bx(|a: &V, b: &V| o(a[..].cmp(&b[..])))),
-        ("eq.for", bx(|a: &V, b: &V| bs(const_eq_for!(slice; &a[..], &b[..]))), bx(|a: &V, b: &V| bs(a == b))),
-        ("cmp.for", bx(|a: &V, b: &V| o(const_cmp_for!(slice; &a[..], &b[..]))), bx(|a: &V, b: &V| o(a[..].cmp(&b[..])))),
-        ("eq.forpath", bx(|a: &V, b: &V| bs(const_eq_for!(slice; &a[..], &b[..], konst::eq_str))), bx(|a: &V, b: &V| bs(a == b))),
-        ("cmp.forpath", bx(|a: &V, b: &V| o(const_cmp_for!(slice; &a[..], &b[..], konst::cmp_str))), bx(|a: &V, b: &V| o(a[..].cmp(&b[..])))),
+        ("eq.macro", bx(|a: &V, b: &V| bm!(const_eq!(&a[..], &b[..]))), bx(|a: &V, b: &V| bs(a == b))),
+        ("cmp.macro", bx(|a: &V, b: &V| om!(const_cmp!(&a[..], &b[..]))), bx(|a: &V, b: &V| o(a[..].cmp(&b[..])))),
+        ("eq.for", bx(|a: &V, b: &V| bm!(const_eq_for!(slice; &a[..], &b[..]))), bx(|a: &V, b: &V| bs(a == b))),
+        ("cmp.for", bx(|a: &V, b: &V| om!(const_cmp_for!(slice; &a[..], &b[..]))), bx(|a: &V, b: &V| o(a[..].cmp(&b[..])))),
+        ("eq.forpath", bx(|a: &V, b: &V| bm!(const_eq_for!(slice; &a[..], &b[..], konst::eq_str))), bx(|a: &V, b: &V| bs(a == b))),
+        ("cmp.forpath", bx(|a: &V, b: &V| om!(const_cmp_for!(slice; &a[..], &b[..], konst::cmp_str))), bx(|a: &V, b: &V| o(a[..].cmp(&b[..])))),
     ];
     pairs(out, "slice_str", &vals, &show, &ops, &|_, _| true);
     let oshow = move |v: &Option<V>| opt(v, &show);
     let oops: Vec<Op<Option<V>>> = vec![
         ("eq.opt", bx(|a: &Option<V>, b: &Option<V>| bs(eq_option_slice_str(a.as_deref(), b.as_deref()))), bx(|a: &Option<V>, b: &Option<V>| bs(a == b))),
         ("cmp.opt", bx(|a: &Option<V>, b: &Option<V>| o(cmp_option_slice_str(a.as_deref(), b.as_deref()))), bx(|a: &Option<V>, b: &Option<V>| o(a.as_deref().cmp(&b.as_deref())))),
-        ("eq.optmacro", bx(|a: &Option<V>, b: &Option<V>| bs(const_eq!(a.as_deref(), b.as_deref()))), bx(|a: &Option<V>, b: &Option<V>| bs(a == b))),
-        ("cmp.optmacro", bx(|a: &Option<V>, b: &Option<V>| o(const_cmp!(a.as_deref(), b.as_deref()))), bx(|a: &Option<V>, b: &Option<V>| o(a.as_deref().cmp(&b.as_deref())))),
+        ("eq.optmacro", bx(|a: &Option<V>, b: &Option<V>| bm!(const_eq!(a.as_deref(), b.as_deref()))), bx(|a: &Option<V>, b: &Option<V>| bs(a == b))),
+        ("cmp.optmacro", bx(|a: &Option<V>, b: &Option<V>| om!(const_cmp!(a.as_deref(), b.as_deref()))), bx(|a: &Option<V>, b: &Option<V>| o(a.as_deref().cmp(&b.as_deref())))),
     ];
     pairs(out, "slice_str", &with_none(&words(&alpha[..3], 2)), &oshow, &oops, &|_, _| true);
     triples(out, "slice_str", &words(&alpha[1..3], 2), &show, &bx(|a: &V, b: &V| o(cmp_slice_str(a, b))), &bx(|a: &V, b: &V| o(a[..].cmp(&b[..]))));
@@ -617,18 +632,18 @@ fn slice_bytes_family(out: &mut Out, tier: &str, rng: &mut Rng) {
     let ops: Vec<Op<V>> = vec![
         ("eq.fn", bx(|a: &V, b: &V| bs(eq_slice_bytes(a, b))), bx(|a: &V, b: &V| bs(a == b))),
         ("cmp.fn", bx(|a: &V, b: &V| o(cmp_slice_bytes(a, b))), bx(|a: &V, b: &V| o(a[..].cmp(&b[..])))),
-        ("eq.macro", bx(|a: &V, b: &V| bs(const_eq!(&a[..], &b[..]))), bx(|a: &V, b: &V| bs(a == b))),
-        ("cmp.macro", bx(|a: &V, b: &V| o(const_cmp!(&a[..], &b[..]))), bx(|a: &V, b: &V| o(a[..].cmp(&b[..])))),
-        ("eq.for", bx(|a: &V, b: &V| bs(const_eq_for!(slice; &a[..], &b[..]))), bx(|a: &V, b: &V| bs(a == b))),
-        ("cmp.for", bx(|a: &V, b: &V| o(const_cmp_for!(slice; &a[..], &b[..]))), bx(|a: &V, b: &V| o(a[..].cmp(&b[..])))),
+        ("eq.macro", bx(|a: &V, b: &V| bm!(const_eq!(&a[..], &b[..]))), bx(|a: &V, b: &V| bs(a == b))),
+        ("cmp.macro", bx(|a: &V, b: &V| om!(const_cmp!(&a[..], &b[..]))), bx(|a: &V, b: &V| o(a[..].cmp(&b[..])))),
+        ("eq.for", bx(|a: &V, b: &V| bm!(const_eq_for!(slice; &a[..], &b[..]))), bx(|a: &V, b: &V| bs(a == b))),
+        ("cmp.for", bx(|a: &V, b: &V| om!(const_cmp_for!(slice; &a[..], &b[..]))), bx(|a: &V, b: &V| o(a[..].cmp(&b[..])))),
     ];
     pairs(out, "slice_bytes", &vals, &show, &ops, &|_, _| true);
     let oshow = move |v: &Option<V>| opt(v, &show);
     let oops: Vec<Op<Option<V>>> = vec![
         ("eq.opt", bx(|a: &Option<V>, b: &Option<V>| bs(eq_option_slice_bytes(a.as_deref(), b.as_deref()))), bx(|a: &Option<V>, b: &Option<V>| bs(a == b))),
         ("cmp.opt", bx(|a: &Option<V>, b: &Option<V>| o(cmp_option_slice_bytes(a.as_deref(), b.as_deref()))), bx(|a: &Option<V>, b: &Option<V>| o(a.as_deref().cmp(&b.as_deref())))),
-        ("eq.optmacro", bx(|a: &Option<V>, b: &Option<V>| bs(const_eq!(a.as_deref(), b.as_deref()))), bx(|a: &Option<V>, b: &Option<V>| bs(a == b))),
-        ("cmp.optmacro", bx(|a: &Option<V>, b: &Option<V>| o(const_cmp!(a.as_deref(), b.as_deref()))), bx(|a: &Option<V>, b: &Option<V>| o(a.as_deref().cmp(&b.as_deref())))),
+        ("eq.optmacro", bx(|a: &Option<V>, b: &Option<V>| bm!(const_eq!(a.as_deref(), b.as_deref()))), bx(|a: &Option<V>, b: &Option<V>| bs(a == b))),
+        ("cmp.optmacro", bx(|a: &Option<V>, b: &Option<V>| om!(const_cmp!(a.as_deref(), b.as_deref()))), bx(|a: &Option<V>, b: &Option<V>| o(a.as_deref().cmp(&b.as_deref())))),
     ];
     pairs(out, "slice_bytes", &with_none(&words(&alpha[..3], 2)), &oshow, &oops, &|_, _| true);
     let ralpha: Vec<&'static [u8]> = vec![b"", b"\x00", b"\x01", b"\x01\x01", b"\x02", b"\x01\x02", b"\xff", b"\x80\x00"];
@@ -660,8 +675,8 @@ fn ordering_family(out: &mut Out) {
     let ops: Vec<Op<V>> = vec![
         ("eq.fn", bx(|a: &V, b: &V| bs(eq_ordering(*a, *b))), bx(|a: &V, b: &V| bs(a == b))),
         ("cmp.fn", bx(|a: &V, b: &V| o(cmp_ordering(*a, *b))), bx(|a: &V, b: &V| o(a.cmp(b)))),
-        ("eq.macro", bx(|a: &V, b: &V| bs(const_eq!(*a, *b))), bx(|a: &V, b: &V| bs(a == b))),
-        ("cmp.macro", bx(|a: &V, b: &V| o(const_cmp!(*a, *b))), bx(|a: &V, b: &V| o(a.cmp(b)))),
+        ("eq.macro", bx(|a: &V, b: &V| bm!(const_eq!(*a, *b))), bx(|a: &V, b: &V| bs(a == b))),
+        ("cmp.macro", bx(|a: &V, b: &V| om!(const_cmp!(*a, *b))), bx(|a: &V, b: &V| o(a.cmp(b)))),
     ];
     pairs(out, "ordering", &vals, &show, &ops, &|_, _| true);
     triples(out, "ordering", &vals, &show, &bx(|a: &V, b: &V| o(cmp_ordering(*a, *b))), &bx(|a: &V, b: &V| o(a.cmp(b))));
@@ -669,10 +684,10 @@ fn ordering_family(out: &mut Out) {
     let oops: Vec<Op<Option<V>>> = vec![
         ("eq.opt", bx(|a: &Option<V>, b: &Option<V>| bs(eq_option_ordering(*a, *b))), bx(|a: &Option<V>, b: &Option<V>| bs(a == b))),
         ("cmp.opt", bx(|a: &Option<V>, b: &Option<V>| o(cmp_option_ordering(*a, *b))), bx(|a: &Option<V>, b: &Option<V>| o(a.cmp(b)))),
-        ("eq.optmacro", bx(|a: &Option<V>, b: &Option<V>| bs(const_eq!(*a, *b))), bx(|a: &Option<V>, b: &Option<V>| bs(a == b))),
-        ("cmp.optmacro", bx(|a: &Option<V>, b: &Option<V>| o(const_cmp!(*a, *b))), bx(|a: &Option<V>, b: &Option<V>| o(a.cmp(b)))),
-        ("eq.optfor", bx(|a: &Option<V>, b: &Option<V>| bs(const_eq_for!(option; *a, *b))), bx(|a: &Option<V>, b: &Option<V>| bs(a == b))),
-        ("cmp.optfor", bx(|a: &Option<V>, b: &Option<V>| o(const_cmp_for!(option; *a, *b))), bx(|a: &Option<V>, b: &Option<V>| o(a.cmp(b)))),
+        ("eq.optmacro", bx(|a: &Option<V>, b: &Option<V>| bm!(const_eq!(*a, *b))), bx(|a: &Option<V>, b: &Option<V>| bs(a == b))),
+        ("cmp.optmacro", bx(|a: &Option<V>, b: &Option<V>| om!(const_cmp!(*a, *b))), bx(|a: &Option<V>, b: &Option<V>| o(a.cmp(b)))),
+        ("eq.optfor", bx(|a: &Option<V>, b: &Option<V>| bm!(const_eq_for!(option; *a, *b))), bx(|a: &Option<V>, b: &Option<V>| bs(a == b))),
+        ("cmp.optfor", bx(|a: &Option<V>, b: &Option<V>| om!(const_cmp_for!(option; *a, *b))), bx(|a: &Option<V>, b: &Option<V>| o(a.cmp(b)))),
     ];
     pairs(out, "ordering", &with_none(&vals), &oshow, &oops, &|_, _| true);
 }
